@@ -19,7 +19,7 @@ ASSUMPTIONS = [
 EVAL = ['faults']
 DISTINCT = ['config', 'inject_shape', 'impl_sets']
 REQUIRED = ['faults', 'canary_runs', 'faults_bitflip', 'faults_edit', 'faults_truncate', 'faults_splice', 'faults_inject', 'forged_long_records',
-            'forged_conformant', 'forged_bad', 'faults_rejected_with_error', 'conformant_accepted']
+            'forged_conformant', 'forged_bad', 'faults_far_replay', 'faults_rejected_with_error', 'conformant_accepted']
 EXHAUSTIVE = 'every bit of every record of each short session; every record index for each edit operation'
 NW = 16
 
